@@ -820,6 +820,36 @@ func openFailedBetween(evs []verifkit.Event, from, to int) bool {
 	return false
 }
 
+func modeOf(fields []string) string {
+	for _, kv := range fields {
+		if strings.HasPrefix(kv, "mode=") {
+			return kv[5:]
+		}
+	}
+	return ""
+}
+
+// healthyMenus: every plugin answer of the scenario is a plain confirmation.
+func (p flowParams) healthyMenus() bool {
+	for _, m := range [][]string{p.AckMenu, p.DLQMenu} {
+		for _, a := range m {
+			if a != "ok" {
+				return false
+			}
+		}
+	}
+	return true
+}
+
+func (a *analysis) singleWorkerProcs() bool {
+	for _, pr := range a.p.Procs {
+		if pr.Workers > 1 {
+			return false
+		}
+	}
+	return true
+}
+
 // applyKind returns the kind ("conn", "proc", ...) of the n-th (1-based) apply of the scenario.
 func applyKind(specs []string, n int) string {
 	if n < 1 || n > len(specs) {
@@ -1276,8 +1306,23 @@ func (a *analysis) checkApply(x *verifkit.Exec) {
 	overlapped := false
 	opensDuring, teardownsDuring := 0, 0
 	var begin verifkit.Event
-	settled := true // false while an apply is in flight (the switch happens somewhere inside)
+	settled := true               // false while an apply is in flight (the switch happens somewhere inside)
+	liveSources := 0              // source connectors currently open (a run exists)
+	liveAtBegin := map[int]bool{} // ... when apply #k was submitted
+	oldConfigOpenFailed := false  // a processor failed to open a configuration that is NOT the one an apply introduces
 	for _, e := range a.evs {
+		if isSource(e.Comp) && e.Kind == "open" {
+			liveSources++
+		}
+		if isSource(e.Comp) && e.Kind == "teardown" && liveSources > 0 {
+			liveSources--
+		}
+		if strings.HasPrefix(e.Comp, "proc:") && e.Kind == "openfail" && (e.Arg == "g0" || e.Arg == "") {
+			oldConfigOpenFailed = true
+		}
+		if e.Comp == "ctl" && e.Kind == "apply.begin" {
+			liveAtBegin[e.Idx] = liveSources > 0
+		}
 		switch {
 		case e.Comp == "ctl" && e.Kind == "apply.begin":
 			applying++
@@ -1335,6 +1380,33 @@ func (a *analysis) checkApply(x *verifkit.Exec) {
 			}
 			if strings.Contains(spec, "+noauth") && !strings.Contains(spec, "+stale") && errText == "nil" && begin.Seq > 0 && (wasRunningAt(a.evs, begin.Seq) || statusAt(a.evs, begin.Seq) == "Recovering") {
 				a.bad("C16/running-pipeline-touched-without-authorisation", "a running pipeline was changed by a live apply without operator authorisation (event #%d)", e.Seq)
+			}
+			kindOfApply := applyKind(a.p.Apply, e.Idx)
+			quiet := a.p.Stop == "" && len(a.p.Ctl) == 0 && !a.p.Faults && len(a.p.ReadMenu) == 0 && len(a.p.Blocked) == 0 && a.p.healthyMenus()
+			if (kindOfApply == "conn" || kindOfApply == "dlqthresh") && errText == "nil" && !wasOverlapped && quiet && statusAt(a.evs, beginOf[e.Idx].Seq) == "Running" && liveAtBegin[e.Idx] && teardownsDuring == 0 {
+				// only processor-only changes may be applied in place; everything else touches a running pipeline only after it
+				// has fully drained (its connectors are torn down) and is started again afterwards
+				a.bad("C16/running-pipeline-changed-without-drain", "apply #%d (%s) changed more than a processor's configuration of a RUNNING pipeline and returned nil (mode %s), but no connector was torn down during it: the pipeline was not drained and restarted, the running nodes keep the previous configuration (event #%d)", e.Idx, kindOfApply, modeOf(f), e.Seq)
+			}
+			if (kindOfApply == "proc" || kindOfApply == "procbad" || kindOfApply == "twoprocs") && a.p.Engine == "v1" && a.singleWorkerProcs() && errText != "nil" && !refused && !wasOverlapped && quiet && !oldConfigOpenFailed &&
+				statusAt(a.evs, beginOf[e.Idx].Seq) == "Running" && liveAtBegin[e.Idx] {
+				// an in-place (processor-only) change whose new configuration cannot be built or opened: the old one keeps running
+				st := ""
+				for _, kv := range f {
+					if strings.HasPrefix(kv, "status=") {
+						st = kv[7:]
+					}
+				}
+				base := ""
+				if k := strings.Index(beginOf[e.Idx].Arg, "|base="); k >= 0 {
+					base = beginOf[e.Idx].Arg[k+6:]
+				}
+				if st != "Running" || teardownsDuring > 0 {
+					a.bad("C13/pipeline-stopped-by-a-failed-live-edit", "the processor-only apply #%d failed (%s) and the pipeline, Running before, is now %s (%d connector teardowns during the apply): the old configuration does not keep running (event #%d)", e.Idx, errText, st, teardownsDuring, e.Seq)
+				}
+				if stored != "" && base != "" && stored != base {
+					a.bad("C13/failed-live-edit-left-its-configuration-stored", "the processor-only apply #%d failed (%s) but the stored configuration changed from %q to %q (event #%d)", e.Idx, errText, base, stored, e.Seq)
+				}
 			}
 			if refused {
 				if opensDuring+teardownsDuring > 0 && !wasOverlapped {
